@@ -1,7 +1,7 @@
 #!/bin/sh
 # usage: tools/run_all.sh [tier] [seed]   — runs every claimed check once, prints a one-line verdict each
 TIER="${1:-quick}"; SEED="${2:-0}"
-cd /verif
+cd "$(dirname "$0")/.."
 for c in C01 C02 C03 C04 C05 C06 C07 C08 C09 C10 C11 C12 C13 C14 C15 C16 C17 C18; do
   s=$(date +%s)
   out=$(VERIF_SEED=$SEED ./check $c $TIER 2>&1); rc=$?
